@@ -22,24 +22,39 @@ def repo_clean():
     return out.strip() == ""
 
 
+WT = [None]
+
+
 def apply_seed(sid):
+    """Apply the seed in a scratch worktree of /repo's HEAD (so that /repo itself stays untouched
+    and other runs are not disturbed); checks are pointed at it through VERIF_REPO."""
     d = os.path.join(SEEDED, sid)
+    wt = "/tmp/mx-%s-%d" % (sid, os.getpid())
+    sh("git worktree remove --force %s" % wt, "/repo")
+    rc, out = sh("git worktree add -q --detach %s HEAD" % wt, "/repo")
+    if rc != 0:
+        print(out)
+        return None
+    WT[0] = wt
     for name in ("patch.diff", "patch.pinned.diff"):
         p = os.path.join(d, name)
         if os.path.exists(p):
-            rc, out = sh("git apply %s" % p, "/repo")
+            rc, out = sh("git apply %s" % p, wt)
             if rc == 0:
                 return name
+    revert()
     return None
 
 
 def revert():
-    sh("git checkout -- .", "/repo")
+    if WT[0]:
+        sh("git worktree remove --force %s" % WT[0], "/repo")
+        WT[0] = None
 
 
 def run_check(prop, tier):
     t0 = time.time()
-    rc, out = sh("./check %s --no-evidence --tier %s" % (prop, tier), ROOT, timeout=7200)
+    rc, out = sh("VERIF_REPO=%s ./check %s --no-evidence --tier %s" % (WT[0], prop, tier), ROOT, timeout=7200)
     mechs = re.findall(r"^\s+mechanism: (.*)$", out, re.M)
     known = re.findall(r"^KNOWN-FINDING: .*\[(.*?)\]", out, re.M)
     status = "VIOLATED" if rc == 1 else ("HELD" if rc == 0 else "INCONCLUSIVE(rc=%d)" % rc)
@@ -59,9 +74,6 @@ def main():
     seeds = a.seeds or sorted(os.listdir(SEEDED))
     mpath = os.path.join(ROOT, "selftest", "matrix.json")
     matrix = json.load(open(mpath)) if os.path.exists(mpath) else {}
-    if not repo_clean():
-        print("/repo has uncommitted changes; refusing")
-        return 2
     for sid in seeds:
         own = sid.split("-")[0]
         if a.all:
